@@ -247,6 +247,49 @@ def stmts(depth=2):
     )
 
 
+# ---- (a2) one name in every syntactic role, followed by a global / nonlocal declaration of it -------------------------------
+# The declaration rules ("used / assigned before global", "no binding for nonlocal") look at every occurrence of the name in the
+# function; most occurrences are not variables of that function at all (attribute tails, keyword names, parameters of nested scopes,
+# import parts, type parameters, literal text ...).  Whether a combination is legal is decided by the reference, never here.
+_ROLES = ['[gx for gx in y]\n', 'lambda gx: gx\n', '{gx: 1 for gx in y}\n', 'f(gx=1)\n', 'import a.gx\n', 'from gx import z\n',
+          'class C:\n    gx = 1\n', 'def gx2(gx): pass\n', 'y.gx = 1\n', '@a.gx\ndef h(): pass\n', 'print(f"gx")\n',
+          'def gx2(gx: int): pass\n', 'def gx2(*, gx: int = 3): pass\n', 'def gx2(*gx, **k): pass\n', 'def gx2(*a: int, **gx: str): pass\n',
+          'async def gx2(a, /, gx=1): pass\n', 'lambda gx=1: 0\n', 'lambda *gx: 0\n', 'lambda *, gx: 0\n', 'x = a.b.gx\n', 'a.gx()\n',
+          'a[0].gx = 1\n', 'del a.gx\n', 'for a.gx in y: pass\n', 'with y as a.gx: pass\n', 'import gx2.gx as q\n', 'import q.gx.r\n',
+          'from a import gx as q\n', 'from .gx import q\n', 'from .. import q as r\n', 'from a.gx.b import q\n', 'class C(k, gx=1): pass\n',
+          'class C(metaclass=a.gx): pass\n', 'try: pass\nexcept E as e: e.gx\n', '[y for y in z if y.gx]\n', 'x: "gx" = 1\n',
+          'def h() -> "gx": pass\n', 'def h[gx](a: gx): pass\n', 'class C[gx]: pass\n', 'class C[T: gx]: pass\n', 'type A[gx] = list[gx]\n',
+          'print(f"{a.gx}")\n', 'print(f"{a!r:gx}")\n', 'print(f"{a:{b.gx}}")\n', '@a.b.gx(1)\nclass K: pass\n', '@a.gx.c\nasync def h(): pass\n',
+          '@(a.gx)\ndef h(): pass\n', '@a[0].gx\ndef h(): pass\n', 'lambda: gx\n', '[gx2 for y in z for gx in y]\n', '(y for y in z if (lambda gx: gx)(y))\n',
+          'f(**{"gx": 1})\n', 'x = {"gx": gx2}\n', 'def h(a=lambda gx: gx): pass\n', 'class C:\n    def gx(self): pass\n', 'class C:\n    import gx\n',
+          'def h():\n    gx = 1\n', 'def h():\n    global gx\n', 'async def h():\n    async for gx in y: pass\n', 'x = a.gx if a.gx else b.gx\n',
+          'gx2 = 1\n', 'pass\n', 'a.gx: int = 1\n', 'a.gx += 1\n', 'x = [a.gx for a in y]\n', 'assert a.gx, b.gx\n', 'raise a.gx from b.gx\n',
+          'return a.gx\n', 'yield a.gx\n', 'await a.gx\n', 'x = a . gx\n', 'x = a.\\\n  gx\n', 'import gx\n', 'from a import gx\n', 'import a as gx\n',
+          'def gx(): pass\n', 'class gx: pass\n', 'gx = 1\n', 'print(gx)\n', 'for gx in y: pass\n', 'with y as gx: pass\n', '[(gx := 1) for y in z]\n']
+
+
+@st.composite
+def name_roles(draw):
+    pre = ''.join(draw(st.lists(st.sampled_from(_ROLES), min_size=1, max_size=2)))
+    decl = draw(st.sampled_from(['global gx\n', 'global gx\n', 'nonlocal gx\n', 'global gx2, gx\n', 'nonlocal gx\nglobal gx2\n']))
+    post = draw(st.sampled_from(['', '', 'gx = 1\n', 'print(gx)\n', 'del gx\n', 'return gx\n']))
+    order = draw(st.integers(0, 5))
+    body = pre + decl + post if order else decl + pre + post     # mostly: occurrence first, declaration after it
+    unit = draw(st.sampled_from(['    ', '  ', '\t']))
+    head = draw(st.sampled_from(['def f():\n', 'def f():\n', 'async def f():\n', 'def f(a, *b, c=1):\n']))
+    fn = head + _indent(body, unit)
+    wrap = draw(st.integers(0, 5))
+    if wrap == 0:       # an enclosing function that binds the name (what nonlocal needs)
+        how = draw(st.sampled_from(['gx = 1\n', 'import gx\n', 'def gx(): pass\n', 'for gx in y: pass\n', 'gx: int\n', 'from a import b as gx\n', '']))
+        hd = draw(st.sampled_from(['def o():\n', 'def o(gx):\n', 'def o(*, gx: int = 1):\n', 'async def o():\n']))
+        fn = hd + _indent(how + fn + 'return f\n', unit)
+    elif wrap == 1:
+        fn = 'class K:\n' + _indent(fn, unit)
+    elif wrap == 2:
+        fn = 'def o():\n' + _indent('gx = 1\nclass K:\n' + _indent(fn, unit), unit)
+    return fn
+
+
 @st.composite
 def future_imports(draw):
     names = draw(st.lists(st.sampled_from(_FEATURES), min_size=1, max_size=3, unique=True))
@@ -295,7 +338,7 @@ def token_mutated(draw, base):
 def candidates(kinds=('repo',), deriv=None):
     win = stmt_window(kinds)
     pool = [win, win, token_mutated(win), token_mutated(win), programs(), programs(), token_mutated(programs()),
-            T.list_context(), st.lists(T.list_context(), min_size=1, max_size=3).map('\n'.join)]
+            T.list_context(), st.lists(T.list_context(), min_size=1, max_size=3).map('\n'.join), name_roles()]
     if deriv is not None:
         pool.append(deriv)
     return st.one_of(*pool)
